@@ -289,6 +289,13 @@ def assemble(repo_dir: str, unit: dict, out_path: str):
             text = src[decl_start:end]
             text = _drop_docs_and_attrs(text, dropped)
             text = _normalize_vis(text, dropped)
+            if kv.get("vis") == "pub":
+                # D3': the type itself becomes `pub` (its fields keep their visibility), so that the prelude's public
+                # container types may mention it
+                text2v = re.sub(r"^(\s*)pub\([a-z]+\)\s+(struct|enum)\b", r"\1pub \2", text, count=1)
+                if text2v != text:
+                    dropped.append("D3': `pub(crate)` on the type definition widened to `pub`")
+                    text = text2v
             pre = []
             if "attrs" in kv:
                 pre.append(kv["attrs"])
@@ -315,6 +322,18 @@ def assemble(repo_dir: str, unit: dict, out_path: str):
                     fn = _F(); fn.line = 0
                     text = "    fn drop(&mut self) {\n    }"
                     implicit = f"no `impl Drop for {kv['type']}` in {kv['file']}: checked against the implicit empty drop"
+                elif kv.get("ifabsent", "").startswith("block:") and list(rsrc.find_blocks(masked, kv["within"])):
+                    # `ifabsent=block:<label>`: the impl block is there but does not define this method, so the
+                    # trait's DEFAULT method runs.  The template supplies, under <label>, a stand-in whose body calls an
+                    # abstract function carrying the default's contract (proved elsewhere); the unit's contract for the
+                    # method is then checked against that (stated in the evidence), not reported as a lost anchor.
+                    lab = kv["ifabsent"].split(":", 1)[1]
+                    if lab not in contracts:
+                        raise
+                    class _F: pass
+                    fn = _F(); fn.line = 0
+                    text = contracts[lab]
+                    implicit = f"`{kv['fn']}` is not defined in the impl block of {kv['file']}: checked against the trait's default method (stand-in `{lab}`)"
                 else:
                     raise
             original = text
@@ -366,10 +385,152 @@ def _locate(linemap, line):
     return None
 
 
+_UNKNOWN_CALLEE = [
+    re.compile(r"no method named `(\w+)` found for"),
+    re.compile(r"cannot find function `(\w+)` in this scope"),
+    re.compile(r"no function or associated item named `(\w+)` found for"),
+]
+
+
+def _single_expression(body: str) -> bool:
+    """True if a function body (text between its braces) is one expression: no statement separator at
+    brace/paren depth 0, no let / return / loops."""
+    b = rsrc.mask(body)
+    depth = 0
+    for ch in b:
+        if ch in "([{":
+            depth += 1
+        elif ch in ")]}":
+            depth -= 1
+        elif ch == ";" and depth == 0:
+            return False
+    return not re.search(r"\b(let|return|loop|while|for|break|continue)\b", b) and b.strip() != ""
+
+
+def _import_helper(repo_dir: str, meta: dict, unit: dict, name: str):
+    """I4: a function that the tree defines next to the functions under contract but that the unit's
+    prelude does not know (typically a helper introduced by the change under check).  Its text is
+    imported verbatim into the impl block it comes from; if its body is a single expression the
+    contract `ensures r == (<that expression>)` is generated, otherwise it gets no contract (its
+    result is then unconstrained for the callers).  Returns (text, description) or None."""
+    files = []
+    for f in meta["functions"]:
+        if f.get("file") and f["file"] not in files:
+            files.append(f["file"])
+    for extra in unit.get("helper_files", []):
+        if extra not in files:
+            files.append(extra)
+    hits = []
+    for rel in files:
+        try:
+            src = open(os.path.join(repo_dir, rel)).read()
+        except OSError:
+            continue
+        masked = rsrc.mask(src)
+        nth = 0
+        while True:
+            try:
+                fn = rsrc.find_fn(src, name, None, nth, masked)
+            except rsrc.AnchorLost:
+                break
+            nth += 1
+            header = None
+            for (hs, ob, cb) in rsrc.find_blocks(masked, r".*"):
+                if ob < fn.decl_start < cb and (header is None or hs > header[0]):
+                    header = (hs, ob, cb)
+            hits.append((rel, src, fn, header))
+    if len(hits) != 1:
+        return None
+    rel, src, fn, header = hits[0]
+    dropped = []
+    text = src[fn.decl_start:fn.body_close + 1]
+    original = text
+    text = _drop_docs_and_attrs(text, dropped)
+    text = _drop_tracing(text, dropped)
+    text = _normalize_vis(text, dropped)
+    body = src[fn.body_open + 1:fn.body_close]
+    has_ret = "->" in rsrc.mask(fn.signature)
+    auto = False
+    if has_ret and _single_expression(_drop_tracing(body, [])):
+        text = _insert_contract(text, "    ensures r == (" + " ".join(_drop_tracing(body, []).split()) + "),", "r")
+        auto = True
+    if header is not None:
+        htxt = " ".join(src[header[0]:header[1]].split())
+        if not htxt.startswith("impl"):
+            return None
+        text = htxt + " {\n" + text + "\n}"
+    desc = {"function": name, "file": rel, "line": fn.line, "sha256": sha256(original),
+            "kind": "helper imported automatically (unknown to the unit's prelude); " +
+                    ("contract generated from its single-expression body" if auto else "no contract: result unconstrained"),
+            "clauses": ["r == <its own body>"] if auto else [], "dropped": dropped}
+    return text, desc
+
+
 def run_unit(repo_dir: str, unit: dict, tier: str, workdir: str):
+    """Runs the unit; when Verus stops at a callee it does not know and the tree defines that function next to
+    the functions under contract, the helper is imported (I4) and the unit is run again (at most 3 times)."""
+    info = _run_unit_once(repo_dir, unit, tier, workdir, [])
+    helpers = []
+    for _ in range(3):
+        if info["status"] != "undecided" or not info["other_errors"]:
+            break
+        name = None
+        for e in info["other_errors"]:
+            for rx in _UNKNOWN_CALLEE:
+                m = rx.search(e["message"])
+                if m:
+                    name = m.group(1)
+                    break
+            if name:
+                break
+        if not name or any(h[1]["function"] == name for h in helpers):
+            break
+        try:
+            imp = _import_helper(repo_dir, info["meta"], unit, name)
+        except Exception:
+            imp = None
+        if not imp:
+            break
+        helpers.append(imp)
+        first_reason = info.get("reason")
+        info = _run_unit_once(repo_dir, unit, tier, workdir, helpers)
+        info["auto_helpers"] = [h[1] for h in helpers]
+        if info["status"] == "undecided" and first_reason and "reason" in info:
+            info["reason"] += " (after importing helper `%s`; before: %s)" % (name, first_reason[:120])
+    # a helper imported WITHOUT a contract is an unconstrained function: what is refuted under that model may well
+    # hold for the real helper, so it is not reported as a violation
+    loose = [h[1]["function"] for h in helpers if not h[1]["clauses"]]
+    if info.get("helper_contract_unproved") and info["status"] in ("refuted", "verified"):
+        info["status"] = "undecided"
+        info["reason"] = "the contract generated for an imported helper could not be proved"
+        info["refuted_under_havoc"], info["refuted"] = info["refuted"], []
+    if loose and info["status"] == "refuted":
+        info["status"] = "undecided"
+        info["reason"] = ("refuted only under an unconstrained model of the new helper(s) %s (multi-statement body, no "
+                          "contract could be generated): %s" % (", ".join(loose), info["refuted"][0]["message"][:120]))
+        info["refuted_under_havoc"] = info["refuted"]
+        info["refuted"] = []
+    return info
+
+
+def _run_unit_once(repo_dir: str, unit: dict, tier: str, workdir: str, helpers: list):
     """Returns info dict: status in {'verified','refuted','undecided'}."""
     out_path = os.path.join(workdir, f"{unit['id'].lower()}_{os.path.splitext(os.path.basename(unit['template']))[0]}.rs")
     meta = assemble(repo_dir, unit, out_path)
+    helper_ranges = []
+    if helpers:
+        text = open(out_path).read()
+        k = text.rindex("} // verus!")
+        add = "\n// ---- I4: helpers imported automatically from the tree (unknown to the unit's prelude)\n"
+        before_lines = text[:k].count("\n") + add.count("\n")
+        for htext, hdesc in helpers:
+            start = before_lines + 1
+            add += htext + "\n"
+            before_lines += htext.count("\n") + 1
+            helper_ranges.append((start, before_lines))
+            meta["functions"].append(hdesc)
+        text = text[:k] + add + text[k:]
+        open(out_path, "w").write(text)
     rlimit = unit.get("rlimit", 30) * (2 if tier == "thorough" else 1)
     cmd = ["verus", out_path, "--output-json", "--time", "--error-format=json", "--rlimit", str(rlimit), "--num-threads", "8"]
     if tier == "thorough":
@@ -419,6 +580,15 @@ def run_unit(repo_dir: str, unit: dict, tier: str, workdir: str):
                           "repo_line_approx": (e["repo_line"] + s["line_start"] - e["start"]) if e else None,
                           "primary": bool(s.get("is_primary"))})
         rec = {"message": msg, "where": where, "rendered": d.get("rendered", "")[:1500]}
+        prim_lines = [sp.get("line_start", -1) for sp in prim]
+        if helper_ranges and prim_lines and all(any(a <= ln <= b for a, b in helper_ranges) for ln in prim_lines) \
+                and any(k in msg for k in REFUTATION_MSGS):
+            # a safety obligation (overflow, unwrap) INSIDE an imported helper: not part of any contract of the unit
+            info.setdefault("helper_internal", []).append(rec)
+            if "postcondition" in msg:
+                # the generated contract `r == <body>` itself could not be proved: do not let callers rely on it
+                info["helper_contract_unproved"] = True
+            continue
         if any(k in msg for k in REFUTATION_MSGS):
             info["refuted"].append(rec)
         else:
@@ -428,7 +598,8 @@ def run_unit(repo_dir: str, unit: dict, tier: str, workdir: str):
         info["reason"] = "verus error that is not a refuted obligation: " + info["other_errors"][0]["message"][:200]
     elif info["refuted"]:
         info["status"] = "refuted"
-    elif js and js.get("verification-results", {}).get("success") and info["verified"] > 0:
+    elif js and info["verified"] > 0 and (js.get("verification-results", {}).get("success")
+                                          or (info.get("helper_internal") and info["errors"] <= len(info["helper_internal"]))):
         info["status"] = "verified"
     else:
         info["reason"] = "no verification result (rc=%s): %s" % (rc, err[-400:])
